@@ -671,6 +671,9 @@ func (m *Machine) draw0(t *rapid.T, g *GenOpts) Action {
 			}
 		}
 		a.Ident = cands[uniform(t, len(cands), "who")]
+		if pct(t, 60, "earnings-addresses?") {
+			a.N = 1 + uniform(t, 5, "earnings")
+		}
 	case "setUnbonding":
 		// a parameter update that changes the unbonding period (possible for anybody on testnet
 		// chain ids; on mainnet ids it is rejected)
